@@ -55,3 +55,40 @@ Definition row_wf (ic : N * case) :=
    (if wfb bs (max_span ms) (max_lines ms) ms then 1 else 0), max_span ms, max_lines ms).
 
 Definition rows_wf (cs : list case) := map row_wf (index_from 0 cs).
+
+(* ---- windowed runs (plain file, -a = the instant of message t): case = (prefix, base,
+   repetitions, bs, maximal lag H, t).  row = (index, number of messages,
+   blocks/lines/syslines high of the CURRENT policy when the consumer keeps up, the same with the
+   consumer H behind, drop_sysline errors of the two runs, drop_line errors of the two runs,
+   drop_sysline Ok of the lag-free run) *)
+From Coq Require Import ZArith.
+From S4.Model Require Import RetainSearch.
+Definition wcase := (list (N * bool) * list (N * bool) * nat * N * N * N)%type.
+
+Definition row_w (ic : N * wcase) :=
+  let '(i, c) := ic in
+  let '(pre, base, rep, bs, H, t) := c in
+  let lay := pre ++ repeat_list base rep in
+  let ms := layout_msgs bs lay in
+  let cf := {| pol := P_cur; streamed := false |} in
+  let n := (length ms - N.to_nat t - 1)%nat in
+  let a := w_run cf bs ms (Z.of_N t) (w_sched_lag 1 t n) in
+  let b := w_run cf bs ms (Z.of_N t) (w_sched_lag H t n) in
+  (i, lenN ms, hb (wb a), hl (wb a), hs (wb a), hb (wb b), hl (wb b), hs (wb b),
+   derr (wb a), derr (wb b), dlerr a, dlerr b, dok (wb a)).
+
+Definition rows_w (cs : list wcase) := map row_w (index_from 0 cs).
+
+(* the repaired policy on the same windowed case (lag-free / H behind) and the logarithmic term *)
+Definition row_w_retry (ic : N * wcase) :=
+  let '(i, c) := ic in
+  let '(pre, base, rep, bs, H, t) := c in
+  let lay := pre ++ repeat_list base rep in
+  let ms := layout_msgs bs lay in
+  let cf := {| pol := P_retry; streamed := false |} in
+  let n := (length ms - N.to_nat t - 1)%nat in
+  let a := w_run cf bs ms (Z.of_N t) (w_sched_lag 1 t n) in
+  let b := w_run cf bs ms (Z.of_N t) (w_sched_lag H t n) in
+  (i, hb (wb a), hl (wb a), hs (wb a), hb (wb b), hl (wb b), hs (wb b)).
+
+Definition rows_w_retry (cs : list wcase) := map row_w_retry (index_from 0 cs).
